@@ -338,6 +338,8 @@ def full_case(case):
         import traceback
         tb = traceback.extract_tb(e.__traceback__)
         fr = [f for f in tb if "/adaptive/" in f.filename]
+        if not fr:
+            raise   # raised by the harness itself: an infrastructure failure (exit 2), not a finding about the learner
         where = f"{fr[-1].filename.split('/adaptive/')[-1]}:{fr[-1].name}: {fr[-1].line}" if fr else "harness"
         return {"lines": [], "impl": [], "stats": {"exception": 1}, "skipped": "exception", "tolerance_fail": None,
                 "fails": [("a1f_exception", f"{type(e).__name__}: {e} at {where}")], "meta": dict(case)}
